@@ -880,6 +880,17 @@ SetterEffect(pre, e, post) ==
          /\ OnlyKey(e, "atier", t) /\ t \in DOMAIN post.atier
          /\ post.atier[t] = [pre.atier[t] EXCEPT !.filter = c.filter, !.decay = c.decay, !.reduction = c.reduction, !.factor = c.factor,
                                                   !.maxAcc = c.maxAcc, !.groupSize = c.groupSize, !.majorTicks = c.majorTicks]
+    [] n = "set_adaptive_fee_constants" ->
+         \* the selected constants take the given values, the others stay; the volatility variables restart from zero
+         LET p == Id(e, "whirlpool") o == pre.oracle[p] o2 == post.oracle[p] c == a.constants
+             Bit(k) == (a.which \div (2 ^ k)) % 2 = 1
+         IN /\ OnlyKey(e, "oracle", p) /\ p \in DOMAIN post.oracle
+            /\ o2.filter = (IF Bit(0) THEN c.filter ELSE o.filter) /\ o2.decay = (IF Bit(1) THEN c.decay ELSE o.decay)
+            /\ o2.reduction = (IF Bit(2) THEN c.reduction ELSE o.reduction) /\ o2.factor = (IF Bit(3) THEN c.factor ELSE o.factor)
+            /\ o2.maxAcc \doteq (IF Bit(4) THEN c.maxAcc ELSE o.maxAcc) /\ o2.groupSize = (IF Bit(5) THEN c.groupSize ELSE o.groupSize)
+            /\ o2.majorTicks = (IF Bit(6) THEN c.majorTicks ELSE o.majorTicks)
+            /\ o2.volAcc \doteq 0 /\ o2.volRef \doteq 0 /\ o2.groupRef = 0 /\ o2.refTs \doteq 0 /\ o2.majorTs \doteq 0
+            /\ o2.tradeEnableTs \doteq o.tradeEnableTs
     [] OTHER -> TRUE
 
 (* Pool creation: the new pool takes its parameters from the fee tier and the config it is created under,
@@ -978,6 +989,7 @@ IxOK(pre, e, post) ==
      THEN Chk("C06", "collect_protocol", NoTransferFee(pre, APool(e)) => C06CollectProtocol(pre, e, post))
      ELSE TRUE
   /\ IF IsSwapName(e.name) /\ APool(e) \in DOMAIN pre.oracle THEN Chk("C14", "adaptive_swap", C14Swap(pre, e, post)) ELSE TRUE
+  /\ Chk("C14", "accumulator_within_maximum", \A p \in DOMAIN post.oracle : post.oracle[p].volAcc \preceq post.oracle[p].maxAcc /\ post.oracle[p].volRef \preceq post.oracle[p].maxAcc)
   /\ IF e.name = "swap_v2" THEN Chk("C16", "swap_v2", C16Swap(pre, e, post)) ELSE TRUE
   /\ IF e.name = "increase_liquidity_v2" THEN Chk("C16", "increase_v2", C16Modify(pre, e, post, TRUE)) ELSE TRUE
   /\ IF e.name = "decrease_liquidity_v2" THEN Chk("C16", "decrease_v2", C16Modify(pre, e, post, FALSE)) ELSE TRUE
